@@ -1,6 +1,7 @@
 // Correspondence / oracle harness for C05-C08: JSON::Parse and Value::Stringify on exact-size buffers.
 //
 //   jsparse <w> <units>            -> canonical dump of JSON::Parse(content, length)
+//   jsparseS <w> <units>           -> the same through JSON::Parse(stream, content, length) with a long-lived scratch stream
 //   jsrt <w> <prec> <valueexpr>    -> build the tree through the public Value API, then
 //                                     <text units> | <dump(parse(text))> | <dump(tree)> | <text of stringify(parse(text))>
 //   jsesc <w> <units>              -> JSONUtils::Escape(units)
@@ -185,6 +186,18 @@ static std::string doParse(const std::vector<uint64_t> &u) {
     return out;
 }
 
+// jsparseS: the three-argument entry point JSON::Parse(stream, content, length) with ONE scratch stream per width
+// that lives as long as the harness process: leftovers of earlier (rejected) documents must not matter
+template <typename Char_T>
+static std::string doParseShared(const std::vector<uint64_t> &u) {
+    static StringStream<Char_T> scratch;
+    vh::ExactBuf<Char_T>        in(u);
+    Value<Char_T>               v = JSON::Parse(scratch, static_cast<const Char_T *>(in.p), SizeT(in.n));
+    std::string                 out;
+    dump(out, v, false);
+    return out;
+}
+
 template <typename Char_T>
 static std::string doRoundTrip(unsigned prec, const std::string &expr) {
     Builder<Char_T> b;
@@ -233,6 +246,7 @@ template <typename Char_T>
 static std::string run(const std::vector<std::string> &t) {
     std::vector<uint64_t> u;
     if (t[0] == "jsparse" && t.size() == 3 && vh::parse_nats(t[2], u)) return doParse<Char_T>(u);
+    if (t[0] == "jsparseS" && t.size() == 3 && vh::parse_nats(t[2], u)) return doParseShared<Char_T>(u);
     if (t[0] == "jsesc" && t.size() == 3 && vh::parse_nats(t[2], u)) return doEscape<Char_T>(u);
     if (t[0] == "jsunesc" && t.size() == 3 && vh::parse_nats(t[2], u)) return doUnEscape<Char_T>(u);
     if (t[0] == "jsrt" && t.size() == 4) return doRoundTrip<Char_T>(unsigned(atoi(t[2].c_str())), t[3]);
